@@ -9,6 +9,40 @@ CLASSES = ("idp", "polyampholyte", "polyelectrolyte", "lowcomplexity", "nocharge
            "sty_rich", "onecharge")
 
 
+# arrangements whose delta exceeds the delta-max the heuristic finds for their composition:
+# raw kappa in (1, 1.1) (clamped to exactly 1 by kappa()) and above 1.1 (returned as is)
+KAPPA_CLAMPED = ['PSEDDS', 'SKGRKP', 'GEEGEG', 'GGKKKG', 'GKKKGG', 'KEEGEEK', 'DKEKKKE', 'KEEEKEK', 'EGGGGGE', 'KDKEEDK', 'EKKKDKE', 'KGPGSPR',
+                 'KEKDDDK', 'GEEEEEG', 'EKGKKSE', 'EKKKGGE', 'KGGGGGK', 'ERERRRE', 'KGEEGEK', 'KESEEGK', 'EKKGKKE', 'REDDPDR', 'GPKKRKPP',
+                 'EEGKKKKG', 'KRESDDER', 'EGSKKKKS', 'EKKKKKSE', 'EESKKKKKE', 'EERKRRRKEE', 'ERKRKRREEE', 'KKKDDEDEEK', 'EEEKRRRKKKKKKE']
+KAPPA_ABOVE = ['KEEGEK', 'KEEEGK', 'KEDDEK', 'KEEEEK', 'GKKKKG', 'KEEDDK', 'ERKRRE', 'EKKKKD', 'REEEER', 'EGGGGE', 'ERKKRE', 'KGGGGK', 'KDDDDK',
+               'RSPPPK', 'KEDEEK', 'GEEEEG', 'KEEEER', 'REDEDR', 'KGEEEEK', 'KDEDEEK', 'KDDEDKK', 'KEDDDEK', 'EERRRRE', 'EEKRKRE', 'KGEDDEK']
+
+
+def gen_special(rnd):
+    return rnd.choice(KAPPA_CLAMPED + KAPPA_CLAMPED + KAPPA_ABOVE)
+
+
+def same_classes_other_letters(rnd, s):
+    """a different sequence with the same numbers of positive, negative and neutral residues"""
+    out = []
+    for c in s:
+        if c in POS:
+            out.append(rnd.choice(POS))
+        elif c in NEG:
+            out.append(rnd.choice(NEG))
+        else:
+            out.append(rnd.choice(NEUT))
+    rnd.shuffle(out)
+    t = "".join(out)
+    if sorted(t) == sorted(s):
+        i = next((j for j, c in enumerate(t) if c not in POS + NEG), None)
+        if i is not None:
+            t = t[:i] + ("A" if t[i] != "A" else "G") + t[i + 1:]
+        else:
+            t = t[:0] + ("R" if t[0] == "K" else "K" if t[0] == "R" else "D" if t[0] == "E" else "E") + t[1:]
+    return t
+
+
 def gen_seq(rnd, n, cls=None):
     if cls is None:
         cls = rnd.choice(CLASSES)
